@@ -213,6 +213,7 @@ impl CompactModel for () {
 }
 
 impl<T: CompactModel + Modeled> Modeled for Compact<T> {
+	const ZW: bool = T::ZW; // only Compact<()>
 	fn ty() -> Ty {
 		T::compact_ty()
 	}
